@@ -51,7 +51,7 @@ impl Property for C09 {
         "C09"
     }
     fn rule(&self) -> String {
-        "Generated: clean tagged token streams (whole vocabulary words of every class, speller phrases, ordinals next to cardinals, linking words, ordinary words, conjunction/separator words, period vs comma and other punctuation, numbers at both ends) with two thresholds drawn from a pool {0, 10, 3, 100, +inf, NaN, -1, -inf, 7, 1, 2, 1e300, subnormal, 0.5} or set to the exact value of one of the text's numbers +-1. Oracle: (a) occ(t) is a sub-list of occ(0) (same span, text, value, flag); (b) t1 <= t2 => occ(t2) sub-list of occ(t1); (c) t <= 0 or NaN => occ(t) == occ(0); (d) every number of occ(0) that is not small at t (small = one-character text or ordinal, value < t) is in occ(t); (e) reference policy model: a small number is rewritten iff the recognised number directly before or after it is of the same kind (cardinal/ordinal) and the tokens between them are only whitespace, bare hyphens, non-alphabetic tokens other than a lone period, or words of the language's linking vocabulary; an ordinary word or a lone period breaks; the conjunction word counts as a linking word; the model abstains (counted) when the gap contains the decimal-separator word or a number-like word outside every occurrence; (e') the same verdicts on a caller-built stream in which ignorable / ordinary tokens between the numbers are flagged 'not a number part'; (f) fixed relations: two small numbers with one word between them that is derived from a linking word without being one (plural, doubled, contraction, elision; every linking word x 12 derivations, enumerated) stay in words at threshold 10; two digits separated by 1..257 commas or repetitions of a linking word are both rewritten at threshold 10; three single digits in a row (comma- or space-separated) are all rewritten at every threshold; 'w d w' with a single digit d: untouched iff d < t. Non-trivial = distinct streams with a small number whose fate is decided by a neighbour (released by a neighbour / dropped by a breaker / dropped by a kind change), or value == threshold.".into()
+        "Generated: clean tagged token streams (whole vocabulary words of every class, speller phrases, ordinals next to cardinals, linking words, ordinary words, conjunction/separator words, period vs comma and other punctuation, numbers at both ends) with two thresholds drawn from a pool {0, 10, 3, 100, +inf, NaN, -1, -inf, 7, 1, 2, 1e300, subnormal, 0.5} or set to the exact value of one of the text's numbers +-1. Oracle: (a) occ(t) is a sub-list of occ(0) (same span, text, value, flag); (b) t1 <= t2 => occ(t2) sub-list of occ(t1); (c) t <= 0 or NaN => occ(t) == occ(0); (d) every number of occ(0) that is not small at t (small = one-character text or ordinal, value < t) is in occ(t); (e) reference policy model: a small number is rewritten iff the recognised number directly before or after it is of the same kind (cardinal/ordinal) and the tokens between them are only whitespace, bare hyphens, non-alphabetic tokens other than a lone period, or words of the language's linking vocabulary; an ordinary word or a lone period breaks; the conjunction word counts as a linking word; the model abstains (counted) when the gap contains the decimal-separator word or a number-like word outside every occurrence; (e') the same verdicts on a caller-built stream in which ignorable / ordinary tokens between the numbers are flagged 'not a number part'; (f) fixed relations: two small numbers with one word between them that is derived from a linking word without being one (plural, doubled, contraction, elision; every linking word x 12 derivations, enumerated) stay in words at threshold 10; two digits separated by 1..257 commas or repetitions of a linking word are both rewritten at threshold 10; every single-word string literal of the tree's language module that is neither a number on its own nor a linking / separator word, placed between a number >= 10 and a small number of the same kind (both orders, cardinals and ordinals): when the scanner at threshold 0 reports the two numbers separately with the word outside both, the small one is not rewritten at threshold value+1; three single digits in a row (comma- or space-separated) are all rewritten at every threshold; 'w d w' with a single digit d: untouched iff d < t. Non-trivial = distinct streams with a small number whose fate is decided by a neighbour (released by a neighbour / dropped by a breaker / dropped by a kind change), or value == threshold.".into()
     }
     fn assumptions(&self) -> Vec<String> {
         vec![
@@ -70,6 +70,26 @@ impl Property for C09 {
         tier.pick(3_000_000, 30_000_000)
     }
     fn enumerate(&self, _tier: Tier, shard: usize, nshards: usize, emit: &mut Emit<Case>) {
+        // every single-word literal of the tree's language modules between a number >= 10 and a small one
+        {
+            let mut k = 0usize;
+            for (code, words) in crate::SRC_DICT.iter() {
+                for wi in 0..words.len() {
+                    for order_kind in 0..4u8 {
+                        for d in 0..8u8 {
+                            k += 1;
+                            if k % nshards != shard {
+                                continue;
+                            }
+                            let sel = ThSel { kind: 0, i: 0, delta: 0 };
+                            if !emit(Case { lang: code.to_string(), shape: "srcword".into(), sent: Sentence { lead: String::new(), items: vec![] }, th: vec![sel], digits: vec![(wi / 256) as u8, (wi % 256) as u8, order_kind, d], comma: false }) {
+                                return;
+                            }
+                        }
+                    }
+                }
+            }
+        }
         // 'w d w' for every digit x every pool threshold x language; and every digit triple at thresholds 10/inf
         let npool = THRESHOLDS.len() as u64;
         for i in shard_range(7 * 10 * npool, shard, nshards) {
@@ -131,6 +151,46 @@ impl Property for C09 {
         let lg = lang(&c.lang);
         let l = c.lang.as_str();
         let v = vocab_of(l);
+        if c.shape == "srcword" {
+            // a word that the tree's own language module mentions as a literal, that is_linking denies and that is no
+            // number on its own, standing between a number >= 10 and a small number: if the scanner (threshold 0) sees the
+            // two numbers as separate occurrences with the word outside both, the small one is isolated at threshold 10
+            let words = crate::SRC_DICT.iter().find(|(code, _)| *code == l).map(|(_, ws)| *ws).unwrap_or(&[]);
+            let Some(w) = words.get(c.digits[0] as usize * 256 + c.digits[1] as usize) else { return Ok(()) };
+            let known = v.number_words.iter().any(|x| x.to_lowercase() == *w) || v.linking.contains(w) || *w == v.conj || *w == v.sep || v.conj_alts.contains(w) || v.zeros.contains(w);
+            if known || lg.is_linking(w) || lg.is_decimal_sep(w) || text2num::text2digits(w, lg).is_ok() {
+                obs.exclude("source-word-is-number-linking-or-separator");
+                return Ok(());
+            }
+            let d = 2 + c.digits[3] % 7;
+            let ordinal = c.digits[2] & 2 != 0;
+            let (big, small) = if ordinal {
+                match (spell::ordinal(l, 10 + (c.digits[3] as u64 % 3) * 10, &mut Canon), spell::ordinal(l, d as u64, &mut Canon)) {
+                    (Some(a), Some(b)) => (a.0.join(" "), b.0.join(" ")),
+                    _ => return Ok(()),
+                }
+            } else {
+                (spell::cardinal_nk(l, [20u64, 100, 10, 30][c.digits[3] as usize % 4], &mut Canon).join(" "), if l == "de" && d == 1 { "eins".to_string() } else { spell::cardinal(l, d as u64, &mut Canon).join(" ") })
+            };
+            let text = if c.digits[2] & 1 == 0 { format!("{} {} {}", big, w, small) } else { format!("{} {} {}", small, w, big) };
+            let (toks, occ0) = scan(&text, lg, 0.0);
+            let wi = toks.iter().position(|t| t.lowercase == *w);
+            let separate = occ0.len() == 2 && wi.map_or(false, |i| occ0[0].end <= i && i < occ0[1].start);
+            if !separate {
+                obs.exclude("source-word-absorbed-or-numbers-not-separate");
+                return Ok(());
+            }
+            let small_occ = if c.digits[2] & 1 == 0 { &occ0[1] } else { &occ0[0] };
+            let is_small = small_occ.ord || small_occ.text.chars().count() == 1;
+            let t = small_occ.value() + 1.0;
+            let (_, occ_t) = scan(&text, lg, t);
+            if is_small && occ_t.iter().any(|o| o.start == small_occ.start) {
+                return Err(format!("[{}] threshold {}: in {:?} the small number {:?} is rewritten although the only word next to it, {:?}, is not a linking word (is_linking = false) and the other number is a separate occurrence", l, t, text, small_occ.text, w));
+            }
+            obs.label("fixed:source-literal-word-between-numbers");
+            obs.nontrivial(&(l, &text));
+            return Ok(());
+        }
         let digit = |d: u8| -> String {
             if d == 0 {
                 spell::zero_word(l).to_string()
